@@ -52,6 +52,12 @@ pub fn check(t: &Trace<'_>, out: &mut CaseOut) -> bool {
         Outcome::Ok(_) => {}
         Outcome::Err(e) => {
             let full = snap0.is_some_and(|s| !s.tx.retained.is_empty());
+            if *e == ErrRepr::BufferTooSmall && !full {
+                // even the empty arena cannot hold this session's CONNECT (e.g. after the broker
+                // assigned a longer client identifier): documented configuration error
+                out.count("excluded_tx_too_small_for_connect", 1);
+                return false;
+            }
             // size of this session's CONNECT, from any earlier connection that got it onto the wire
             // (the encoder reserves 5 bytes for the fixed header in front of the body)
             let connect_need = w
